@@ -26,4 +26,22 @@ RECURSIVE IsEmptyTree(_)
 IsEmptyTree(a) == CASE a.t \in {"Point","LineString","Polygon"} -> Len(a.c) = 0
                     [] a.t \in {"MultiPoint","MultiLineString","MultiPolygon"} -> \A i \in 1..Len(a.c) : Len(a.c[i]) = 0
                     [] OTHER -> \A i \in 1..Len(a.c) : IsEmptyTree(a.c[i])
+\* Validity that the specification can decide on opaque ordinate tokens (a sufficient condition): a token is non-finite
+\* iff its exponent bits are all ones; a Point is valid iff empty or its X and Y are finite; a LineString iff empty or
+\* all X, Y finite and two vertices differ in XY; collections of those; empty areal geometries.  Z and M never matter.
+NonFinite(t) == SubSeq(t,1,3) \in {"7ff", "fff"}
+ZTok(t) == t \in {"0000000000000000", "8000000000000000"}
+SameOrd(a,b) == a = b \/ (ZTok(a) /\ ZTok(b))
+PtFin(p) == ~NonFinite(p[1]) /\ ~NonFinite(p[2])
+PtValid(p) == p = <<>> \/ PtFin(p)
+LineValid(ln) == ln = <<>> \/ ((\A i \in 1..Len(ln) : PtFin(ln[i])) /\ \E i \in 1..Len(ln), j \in 1..Len(ln) : ~(SameOrd(ln[i][1], ln[j][1]) /\ SameOrd(ln[i][2], ln[j][2])))
+RECURSIVE KnownValid(_)
+KnownValid(g) == CASE g.t = "Point" -> PtValid(g.c)
+                   [] g.t = "LineString" -> LineValid(g.c)
+                   [] g.t = "MultiPoint" -> \A i \in 1..Len(g.c) : PtValid(g.c[i])
+                   [] g.t = "MultiLineString" -> \A i \in 1..Len(g.c) : LineValid(g.c[i])
+                   [] g.t = "Polygon" -> g.c = <<>>
+                   [] g.t = "MultiPolygon" -> \A i \in 1..Len(g.c) : g.c[i] = <<>>
+                   [] OTHER -> \A i \in 1..Len(g.c) : KnownValid(g.c[i])
+
 =============================================================================
